@@ -1,5 +1,6 @@
 mod alloc;
 mod common;
+mod restore;
 mod sim;
 
 #[global_allocator]
@@ -41,6 +42,22 @@ impl Engine for SimEngine {
         let run = sim::execute(case);
         let mut out = sim::outcome_for(self.prop, &run);
         out.nontrivial = (self.nontrivial)(&run.obs.borrow().classes);
+        // properties that also quantify over server restarts: the same history is additionally
+        // cut at every journal record boundary and restored (RESTORE phase)
+        if out.violation.is_none()
+            && out.aborted.is_none()
+            && matches!(self.prop, "C03" | "C06" | "C07")
+        {
+            let run2 = sim::execute_mode(case, sim::Mode::Restore);
+            let out2 = sim::outcome_for(self.prop, &run2);
+            if out2.violation.is_some() {
+                out.violation = out2.violation;
+                out.summary = out2.summary;
+            }
+            if run2.obs.borrow().classes.contains("restore-nontrivial") {
+                out.classes.push("restart-with-unfinished-tasks".to_string());
+            }
+        }
         out
     }
     fn rule(&self) -> String {
@@ -59,6 +76,60 @@ impl Engine for SimEngine {
     }
 }
 
+/// RESTORE-based property check (C10, C11, C12)
+pub struct RestoreEngine {
+    pub prop: &'static str,
+}
+
+impl Engine for RestoreEngine {
+    type Case = sim::SimCase;
+    fn property(&self) -> &str {
+        self.prop
+    }
+    fn level(&self) -> &'static str {
+        "fault_enumeration"
+    }
+    fn strategy(&self, tier: Tier) -> BoxedStrategy<Self::Case> {
+        let len = match tier {
+            Tier::Quick => 70,
+            Tier::Thorough => 160,
+        };
+        sim::case_strategy(if self.prop == "C12" { "prune" } else { "journal" }, len, 60)
+    }
+    fn quick_cases(&self) -> usize {
+        1500
+    }
+    fn thorough_cases(&self) -> usize {
+        30000
+    }
+    fn run(&self, case: &Self::Case) -> Outcome {
+        let run = sim::execute_mode(case, sim::Mode::Restore);
+        let mut out = sim::outcome_for(self.prop, &run);
+        let c = &run.obs.borrow().classes;
+        out.nontrivial = match self.prop {
+            "C10" => c.contains("restore-nontrivial"),
+            "C11" => c.contains("ids-of-gone-objects"),
+            _ => c.contains("prune-nontrivial"),
+        };
+        out
+    }
+    fn rule(&self) -> String {
+        match self.prop {
+            "C10" => "RESTORE engine: a SIM history (profile 'journal': submits into closed/open jobs, starts, finishes, failures before and after start, cancels, aborts, max-fails, worker connects/losses, prunes) writes a journal through the real journal process; the file is cut at every record boundary (all if <= 48, else 36 evenly spaced + the last 12) and at 8 interior byte offsets; the real restore runs on every prefix and is compared with an independent reference fold; one restored server per case is continued to completion. evaluations = histories. Distinct = hash of the action trace. Non-trivial = some prefix holds a job with both terminal and unfinished tasks, or a job with >= 2 submits, or a failure without a start".into(),
+            "C11" => "RESTORE engine (same journals and cuts as C10): the first job / worker / queue ids issued after every restore and the server uid are compared with every id the prefix mentions. Non-trivial = the prefix mentions workers, queues or completed jobs (ids of objects that are gone)".into(),
+            _ => "RESTORE engine, profile 'prune': histories with PruneJournal requests; a shadow unpruned journal is written from the same event stream with the real writer; Restore(pruned file prefix) is compared with Restore(unpruned prefix) at every record boundary after the last prune (jobs, task outcomes, pending tasks with dependencies, next instance ids, crash counts, queues); the final file is re-read, appended to and pruned again. Non-trivial = the prune removed records and a live job has a started task".into(),
+        }
+    }
+    fn assumptions(&self) -> Vec<String> {
+        vec![
+            "crash = loss of an arbitrary suffix of the journal file (prefix truncation at record boundaries and inside records); reordered sectors are out of scope".into(),
+            "interior cuts are placed after the file header (a torn header can only occur at the very first start of a server)".into(),
+            "journals are produced by the SIM engine (same assumptions as the SIM checks)".into(),
+            "allocation queue ids: the counter handed to the autoalloc service is compared (queues are not re-created through PBS/Slurm)".into(),
+        ]
+    }
+}
+
 fn has(c: &std::collections::BTreeSet<String>, k: &str) -> bool {
     c.contains(k)
 }
@@ -68,7 +139,7 @@ pub fn sim_engine(prop: &str) -> Option<SimEngine> {
         "C09" => SimEngine {
             prop: "C09",
             profile: "chaos",
-            quick: 3000,
+            quick: 1500,
             max_len: 90,
             eager_ratio: 70,
             nontrivial: |c| {
@@ -79,7 +150,7 @@ pub fn sim_engine(prop: &str) -> Option<SimEngine> {
         "C01" => SimEngine {
             prop: "C01",
             profile: "lifecycle",
-            quick: 3000,
+            quick: 1500,
             max_len: 90,
             eager_ratio: 80,
             nontrivial: |c| {
@@ -94,7 +165,7 @@ pub fn sim_engine(prop: &str) -> Option<SimEngine> {
         "C02" => SimEngine {
             prop: "C02",
             profile: "progress",
-            quick: 3000,
+            quick: 1500,
             max_len: 90,
             eager_ratio: 80,
             nontrivial: |c| {
@@ -109,7 +180,7 @@ pub fn sim_engine(prop: &str) -> Option<SimEngine> {
         "C03" => SimEngine {
             prop: "C03",
             profile: "dag",
-            quick: 2500,
+            quick: 1500,
             max_len: 90,
             eager_ratio: 80,
             nontrivial: |c| has(c, "dependency-abort") || (has(c, "graph-with-edges") && (has(c, "task-failed") || has(c, "tasks-canceled"))),
@@ -118,7 +189,7 @@ pub fn sim_engine(prop: &str) -> Option<SimEngine> {
         "C05" => SimEngine {
             prop: "C05",
             profile: "placement",
-            quick: 3000,
+            quick: 1500,
             max_len: 90,
             eager_ratio: 90,
             nontrivial: |c| has(c, "multi-placement") || has(c, "mn-placement") || has(c, "redirect"),
@@ -127,7 +198,7 @@ pub fn sim_engine(prop: &str) -> Option<SimEngine> {
         "C06" => SimEngine {
             prop: "C06",
             profile: "steal",
-            quick: 3000,
+            quick: 1500,
             max_len: 100,
             eager_ratio: 90,
             nontrivial: |c| has(c, "retract-confirmed") || has(c, "re-execution"),
@@ -136,7 +207,7 @@ pub fn sim_engine(prop: &str) -> Option<SimEngine> {
         "C07" => SimEngine {
             prop: "C07",
             profile: "loss",
-            quick: 3000,
+            quick: 1500,
             max_len: 100,
             eager_ratio: 90,
             nontrivial: |c| has(c, "failure-loss-while-running"),
@@ -145,7 +216,7 @@ pub fn sim_engine(prop: &str) -> Option<SimEngine> {
         "C08" => SimEngine {
             prop: "C08",
             profile: "cancel",
-            quick: 3000,
+            quick: 1500,
             max_len: 90,
             eager_ratio: 80,
             nontrivial: |c| {
@@ -160,7 +231,7 @@ pub fn sim_engine(prop: &str) -> Option<SimEngine> {
         "C13" => SimEngine {
             prop: "C13",
             profile: "jobs",
-            quick: 3000,
+            quick: 1500,
             max_len: 90,
             eager_ratio: 50,
             nontrivial: |c| {
@@ -171,7 +242,7 @@ pub fn sim_engine(prop: &str) -> Option<SimEngine> {
         "C14" => SimEngine {
             prop: "C14",
             profile: "maxfails",
-            quick: 2500,
+            quick: 1500,
             max_len: 90,
             eager_ratio: 90,
             nontrivial: |c| has(c, "maxfails-exceeded"),
@@ -205,6 +276,9 @@ fn main() {
             if let Some(e) = sim_engine(prop) {
                 let code = run_engine(Arc::new(e), tier, seed);
                 code
+            } else if prop == "C10" || prop == "C11" || prop == "C12" {
+                let p: &'static str = match prop { "C10" => "C10", "C11" => "C11", _ => "C12" };
+                run_engine(Arc::new(RestoreEngine { prop: p }), tier, seed)
             } else if prop == "C04" {
                 run_engine(Arc::new(alloc::AllocEngine { prop: "C04" }), tier, seed)
             } else if prop == "C16" {
@@ -222,6 +296,9 @@ fn main() {
             let path = Path::new(&args[3]);
             if let Some(e) = sim_engine(prop) {
                 replay_engine(&e, path)
+            } else if prop == "C10" || prop == "C11" || prop == "C12" {
+                let p: &'static str = match prop { "C10" => "C10", "C11" => "C11", _ => "C12" };
+                replay_engine(&RestoreEngine { prop: p }, path)
             } else if prop == "C04" {
                 replay_engine(&alloc::AllocEngine { prop: "C04" }, path)
             } else if prop == "C16" {
